@@ -35,6 +35,11 @@ func (p *StreamPool) VerifHalves() []VerifHalfState {
 		c.mu.Lock()
 		for _, h := range []*halfconnection{&c.c2s, &c.s2c} {
 			st := VerifHalfState{Pages: h.pages, Closed: h.closed, LastSeen: h.lastSeen}
+			if h.closed {
+				// a closed half has given its pages back; its list heads are stale
+				out = append(out, st)
+				continue
+			}
 			if h.first != nil {
 				st.HeadSeen = h.first.seen
 			}
